@@ -5,6 +5,7 @@ import (
 	"errors"
 	"fmt"
 	"io"
+	"io/fs"
 	"net/http"
 	"strconv"
 
@@ -288,19 +289,21 @@ func (s *Server) referrerAdd(repo store.Repo, subject digest.Digest, desc types.
 		MediaType:     types.MediaTypeOCI1ManifestList,
 	}
 	// existing referrer response exists to update/replace, use that to populate index
-	// all errors reading existing referrers result in defaulting to an initial empty response
+	// a response that is missing or cannot be parsed results in defaulting to an initial empty response,
+	// a response that could not be read is not replaced, the entries it lists would be lost
 	if dOld, err := index.GetByAnnotation(types.AnnotReferrerSubject, subject.String()); err == nil {
-		func() {
+		err := func() error {
 			rdr, err := repo.BlobGet(dOld.Digest)
 			if err != nil {
-				return
+				return err
 			}
 			err = json.NewDecoder(rdr).Decode(&refResp)
 			_ = rdr.Close()
-			if err != nil {
-				return
-			}
+			return err
 		}()
+		if err != nil && storageReadFailed(err) {
+			return err
+		}
 	}
 	// add descriptor to index and push into blob store
 	// entries are matched on the digest only, the annotations are from the manifest and have no meaning to the index
@@ -354,6 +357,13 @@ func (s *Server) referrerAdd(repo store.Repo, subject digest.Digest, desc types.
 
 // referrerDelete removes a referrer entry from a subject.
 // The caller must hold referrerMu.
+// storageReadFailed reports whether err is a failure to access the storage,
+// rather than the answer that content does not exist or is not valid.
+func storageReadFailed(err error) bool {
+	var pe *fs.PathError
+	return errors.As(err, &pe) && !errors.Is(err, fs.ErrNotExist)
+}
+
 // referrerDeleteUnknownSubject removes a manifest from every referrers response that lists it.
 // It is used when the manifest content is no longer available to look up the subject.
 func (s *Server) referrerDeleteUnknownSubject(repo store.Repo, index types.Index, desc types.Descriptor) error {
